@@ -2,6 +2,7 @@ package harness
 
 import (
 	"fmt"
+	"sort"
 
 	"github.com/B1NARY-GR0UP/originium"
 
@@ -134,6 +135,60 @@ func c02Units(tier string) []Unit {
 		}
 	}
 	units = append(units, c02ManyTablesUnits(tier)...)
+	units = append(units, c02BulkUnits(tier)...)
+	return units
+}
+
+// c02BulkUnits: tables with several data blocks of several entries each, read back through handles rebuilt by
+// recovery. One transaction writes n keys of a family (sequential two-digit suffixes, a chain of growing prefixes,
+// long common prefixes), the store is closed and reopened, a second transaction overwrites two of them and deletes
+// one, and it is reopened again; every key is read after every step. Block sizes are chosen so that a block holds
+// about two to five entries.
+func c02BulkUnits(tier string) []Unit {
+	families := map[string]func(i int) string{
+		"k%02d":        func(i int) string { return fmt.Sprintf("k%02d", i) },
+		"prefix-chain": func(i int) string { return "abcdefghijklmnopqrstuvwxyz"[:i+1] },
+		"key1%02d":     func(i int) string { return fmt.Sprintf("key1%02d", i) },
+		"k%d@%d":       func(i int) string { return fmt.Sprintf("k%d@%d", i/3, i%3) },
+	}
+	var fnames []string
+	for n := range families {
+		fnames = append(fnames, n)
+	}
+	sort.Strings(fnames)
+	counts := []int{6, 9, 12, 14}
+	blocks := []int{32, 64, 128}
+	if tier == "thorough" {
+		counts = []int{2, 3, 4, 5, 6, 7, 8, 9, 10, 11, 12, 13, 14, 16, 20, 26}
+		blocks = []int{16, 32, 48, 64, 96, 128, 256}
+	}
+	var units []Unit
+	for _, fn := range fnames {
+		fn := fn
+		units = append(units, Unit{Name: "bulk-tables/" + fn, Weight: 4, Run: func(c *Ctx) {
+			if c.Replay != nil {
+				replaySeq(c, "c02")
+				return
+			}
+			for _, n := range counts {
+				for _, b := range blocks {
+					var ops []txOp
+					for i := 0; i < n; i++ {
+						ops = append(ops, txOp{Op: "S", K: families[fn](i)})
+					}
+					second := []txOp{{Op: "S", K: families[fn](0)}, {Op: "D", K: families[fn](n / 2)}, {Op: "S", K: families[fn](n - 1)}}
+					cfg := dbCfg{Mem: memHuge, Imm: 1, Block: b, L0: 2, Ratio: 2, SL: 3}
+					steps := []seqStep{
+						{Kind: "T", Prog: txProg{Update: true, Ops: ops, End: "C"}},
+						{Kind: "R", Cfg: 1, Clock: 0},
+						{Kind: "T", Prog: txProg{Update: true, Ops: second, End: "C"}},
+						{Kind: "R", Cfg: 2, Clock: 2, Name: "use-after-close"},
+					}
+					exploreSeq(c, "c02", []dbCfg{cfg, cfg, cfg}, steps, []int{0}, false)
+				}
+			}
+		}})
+	}
 	return units
 }
 
